@@ -21,6 +21,7 @@ import (
 	"go.dedis.ch/kyber/v4/sign/eddsa"
 	"go.dedis.ch/kyber/v4/sign/schnorr"
 	"verif/harness/alpha"
+	"verif/harness/fmod"
 	"verif/harness/groups"
 	"verif/harness/vf"
 )
@@ -127,6 +128,24 @@ func runSchnorr(c *vf.Check, g *groups.G, ki int) {
 			}
 			if sch := schnorr.NewScheme(s); sch.Verify(pub, msg, sig) != nil {
 				x.Failf(pk+"/honest-rejected", "honest signature rejected by Scheme.Verify")
+			}
+			// verification is repeatable and leaves its arguments as they were
+			{
+				m2, s2 := append([]byte{}, msg...), append([]byte{}, sig...)
+				pe := fmod.Enc(pub)
+				e1 := schnorr.Verify(g.Group, pub, m2, s2)
+				e2 := schnorr.Verify(g.Group, pub, m2, s2)
+				if e1 != nil || e2 != nil {
+					x.Failf(pk+"/honest-rejected", "honest signature rejected when verified repeatedly (%v, %v)", e1, e2)
+				}
+				if !bytes.Equal(m2, msg) || !bytes.Equal(s2, sig) || !bytes.Equal(fmod.Enc(pub), pe) {
+					x.Failf(pk+"/verify-clobbers-input", "Verify changed its message, signature or key argument (%s)", id)
+				}
+				m3 := append([]byte{}, msg...)
+				sig3, err := schnorr.Sign(s, priv, m3)
+				if err != nil || !bytes.Equal(m3, msg) || schnorr.Verify(g.Group, pub, msg, sig3) != nil {
+					x.Failf(pk+"/sign-clobbers-input", "a second Sign fails, changes its message argument, or gives a signature that does not verify (%s): %v", id, err)
+				}
 			}
 			pubB, _ := pub.MarshalBinary()
 			step := 8
